@@ -132,6 +132,13 @@ def case_strategy(draw, tier):
             case['index'] = draw(st.booleans())
             case['int'] = draw(st.booleans())
             case['outfmt'] = draw(st.sampled_from(['csv', 'csv', 'parquet']))
+            if (case['fmt'] == 'parquet' and fr['n'] > 1 and fr['n'] % 2 == 0
+                    and draw(st.booleans())):
+                # (the input will carry row labels of its own, see run)
+                case['output_fields'] = False
+                case['outfmt'] = 'csv'
+                case['perturb'] = draw(st.sampled_from(['drop-rows',
+                                                        'shift']))
     else:
         case['error'] = draw(st.sampled_from([
             'discover-missing-input', 'verify-missing-input',
@@ -291,9 +298,33 @@ def run(case, ctx):
         STEMS)]
     if stem != 'data':
         out.label('dotted-file-name')
-    data = os.path.join(d, stem + '.' + fmt)
+    # the data file lies in another directory and is named by a relative
+    # path, the constraints file (in the current directory) by its bare
+    # name; a constraints file of that name beside the data is a decoy
+    subdir = ''
+    if (case['cmd'] in ('verify', 'detect') and not case.get('stdin')
+            and not case.get('implied_constraints')
+            and (case['frame']['n'] + len(case['frame']['cols'])) % 2):
+        subdir = 'incoming'
+        os.makedirs(os.path.join(d, subdir))
+        with open(os.path.join(d, subdir, 'cons.tdda'), 'w') as f:
+            f.write('{"fields": {"%s": {"type": "date", "max_nulls": 0, '
+                    '"max": "1900-01-01"}}}'
+                    % case['frame']['cols'][0]['name'].replace('"', ''))
+        out.label('relative-paths-data-elsewhere')
+    data = os.path.join(d, subdir, stem + '.' + fmt)
+    data_arg = os.path.join(subdir, stem + '.' + fmt) if subdir else data
     df0 = build(case['frame'])
-    write_table(df0, data)
+    if fmt == 'parquet' and len(df0) > 1 and case['frame']['n'] % 2 == 0:
+        # a parquet file that carries row labels of its own (a frame saved
+        # after sorting / filtering): reversed or offset
+        df0.index = ([len(df0) - 1 - i for i in range(len(df0))]
+                     if case['frame']['n'] % 4 == 0 else
+                     [10 * i + 5 for i in range(len(df0))])
+        df0.to_parquet(data)
+        out.label('parquet-with-stored-row-labels')
+    else:
+        write_table(df0, data)
     cmd = case['cmd']
     out.label('cmd:' + cmd, 'fmt:' + fmt)
     use_sub = bool(case.get('subprocess'))
@@ -492,6 +523,7 @@ def run(case, ctx):
                         'name'])
     with open(cpath, 'w', encoding='utf-8') as f:
         f.write(cons.to_json())
+    cpath_arg = 'cons.tdda' if subdir else cpath
     flags = []
     kw = {}
     if case['report']:
@@ -519,7 +551,7 @@ def run(case, ctx):
         elif case['implied_constraints']:
             argv = ['verify'] + flags + [data]
         else:
-            argv = ['verify'] + flags + [data, cpath]
+            argv = ['verify'] + flags + [data_arg, cpath_arg]
         status, so, se, raised = run_cli(argv, stdin_text)
         ok, v = quiet(verify_df, ldf.copy(), cpath, report=report, **kw)
         if not ok:
@@ -589,7 +621,7 @@ def run(case, ctx):
         dkw['boolean_ints'] = True
     cli_out = os.path.join(d, 'cli_out.' + case['outfmt'])
     lib_out = os.path.join(d, 'lib_out.' + case['outfmt'])
-    argv = ['detect'] + dflags + [data, cpath, cli_out]
+    argv = ['detect'] + dflags + [data_arg, cpath_arg, cli_out]
     if isinstance(of, list):
         argv += ['--output-fields'] + list(of)
     status, so, se, raised = run_cli(argv)
@@ -656,7 +688,8 @@ def run(case, ctx):
             f = None
         if ok_d and det is not None and f is not None and (
                 'RowNumber' in f.columns):
-            want_rn = [int(i) + 1 for i in det.index]
+            labels = list(ldf.index)
+            want_rn = [labels.index(i) + 1 for i in det.index]
             got_rn = [int(x) for x in f['RowNumber']]
             out.label('row-number-column')
             if got_rn != want_rn:
@@ -664,6 +697,33 @@ def run(case, ctx):
                             'tdda detect %s: RowNumber column %r, positions '
                             'of the detected records (from 1) %r'
                             % (' '.join(dflags), got_rn, want_rn))
+        if ok_d and det is not None and f is not None and (
+                'n_failures' in f.columns and 'n_failures' in det.columns):
+            # the failure counts in the file are those of the detected
+            # records, in their order
+            want_nf = [int(x) for x in det['n_failures']]
+            try:
+                got_nf = [int(float(x)) for x in f['n_failures']]
+            except (TypeError, ValueError):
+                got_nf = list(f['n_failures'])
+            out.label('n_failures-column')
+            if got_nf != want_nf:
+                out.violate('detect', 'n_failures-column',
+                            'tdda detect %s: n_failures column %r, the '
+                            'detected records have %r'
+                            % (' '.join(dflags), got_nf, want_nf))
+            for c in det.columns:
+                if c in f.columns and c.endswith('_ok') and (
+                        case['outfmt'] == 'csv' and not case['int']):
+                    want_ok = ['' if pd.isnull(x) else
+                               'true' if x else 'false' for x in det[c]]
+                    if list(f[c]) != want_ok:
+                        out.violate('detect', 'ok-column',
+                                    'tdda detect %s: column %s holds %r, '
+                                    'the detected records have %r'
+                                    % (' '.join(dflags), c, list(f[c]),
+                                       want_ok))
+                        break
     if use_sub:
         sub_out = os.path.join(d, 'sub_out.' + case['outfmt'])
         argv2 = [sub_out if a == cli_out else a for a in argv]
